@@ -11,6 +11,7 @@ import (
 	"sort"
 	"strconv"
 	"strings"
+	"sync"
 	"testing"
 	"time"
 
@@ -188,10 +189,28 @@ func (md c18Model) apply(m c18Msg, at time.Time) {
 type c18Case struct {
 	Seq     []c18Msg `json:"messages"`
 	Choices []int    `json:"choices,omitempty"`
+	// Step: every reading of the monitor's clock is this much later than the previous one
+	// (time passes while a message is handled): all timestamps of one message are still
+	// "receipt time + lifetime" for ONE receipt time.
+	Step time.Duration `json:"clock_step,omitempty"`
+}
+
+func (md c18Model) clone() c18Model {
+	out := c18Model{}
+	for k, v := range md {
+		out[k] = map[string]float64{}
+		for kk, vv := range v {
+			out[k][kk] = vv
+		}
+	}
+	return out
 }
 
 func (c c18Case) String() string {
 	var s []string
+	if c.Step > 0 {
+		s = append(s, "clock-step="+c.Step.String())
+	}
 	for _, m := range c.Seq {
 		s = append(s, m.String())
 	}
@@ -223,6 +242,20 @@ func c18Scenario(c c18Case, outp *[][2]string) *vsched.Scenario {
 			// backwards ("forall receipt times": they need not be monotonic).
 			var skew time.Duration
 			m.mon.now = func() time.Time { return time.Now().Add(skew) }
+			var (
+				rmu      sync.Mutex
+				readings []time.Time
+			)
+			if c.Step > 0 {
+				base := time.Now()
+				m.mon.now = func() time.Time {
+					rmu.Lock()
+					defer rmu.Unlock()
+					t := base.Add(skew + time.Duration(len(readings))*c.Step)
+					readings = append(readings, t)
+					return t
+				}
+			}
 			x.Spawn("monitor", m.run)
 			x.Spawn("driver", func() {
 				defer m.done()
@@ -256,12 +289,56 @@ func c18Scenario(c c18Case, outp *[][2]string) *vsched.Scenario {
 						}
 						n = 0
 					}
+					var cands []c18Model
+					if c.Step > 0 {
+						// The receipt time is one of the readings the monitor takes while it handles
+						// this message (or, if it takes none, the next one it would get).
+						rmu.Lock()
+						r0 := len(readings)
+						rmu.Unlock()
+						m.inject(msg.in())
+						vsched.Sleep(time.Millisecond)
+						rmu.Lock()
+						rs := append([]time.Time(nil), readings[r0:]...)
+						if len(rs) == 0 {
+							rs = []time.Time{time.Now().Add(skew + time.Duration(len(readings))*c.Step)}
+						}
+						rmu.Unlock()
+						for _, rt := range rs {
+							cm := model.clone()
+							cm.apply(msg, rt)
+							cands = append(cands, cm)
+						}
+						n = 0
+					}
 					for k := 0; k < n; k++ {
 						m.inject(msg.in())
 						model.apply(msg, at)
 					}
 					vsched.Sleep(time.Millisecond) // the monitor handles it at the same virtual second
 					got := m.mem.Series()
+					if len(cands) > 0 {
+						// Adopt the candidate that matches everything exported (the first one otherwise).
+						model = cands[0]
+						for _, cm := range cands {
+							ok := true
+							for _, name := range c18Series {
+								g := map[string]float64{}
+								for k, v := range got[name].Samples {
+									if !strings.Contains(k, "prefix=invalid") {
+										g[k] = v
+									}
+								}
+								if !(len(g) == 0 && len(cm[name]) == 0) && !reflect.DeepEqual(g, cm[name]) {
+									ok = false
+								}
+							}
+							if ok {
+								model = cm
+								break
+							}
+						}
+					}
 					for _, name := range c18Series {
 						g := map[string]float64{}
 						for k, v := range got[name].Samples {
@@ -314,7 +391,7 @@ func c18Scenario(c c18Case, outp *[][2]string) *vsched.Scenario {
 func TestVerifC18(t *testing.T) {
 	r := ev.Begin("C18", "messages")
 	defer r.End(t)
-	r.Rule = "messages fed to the real Monitor.Run (real listener, memory metrics, virtual clock): (a) every single event = message shape (RA: M,O x lifetime {0,30s} x prefixes {none, P1, P1 infinite/zero, P1+P2, P1 with host bits, P1/48, wire-patched length byte 200 followed by P2} x unknown option {no,yes}; RS; NS; NA) x sender {fe80::1%eth0, fe80::1, fe80::2%eth0, 2001:db8::1%eth0, ::%eth0} x gap {0, 1.5s}; (b) all sequences of length<=L over a 18-event sub-alphabet (16 messages + a link flap that makes the monitor re-initialise + the wall clock stepped back by 10 min) chosen so that labels collide (same sender with/without zone, same prefix with other lifetimes/flags, lifetime 0 after non-zero, the same RA again later, RS/NS from an RA's sender); (d) 80 and 300 distinct senders on one interface followed by RAs from the last and the first; (c) every pair of the sub-alphabet with one message reaching the socket at the instant of a link flap (counted iff ReadFrom handed it over), and for 6 of them every goroutine schedule with <=2 deviations; oracle: the eight corerad_monitor_* series equal a map-based model after every message, Run never returns; non-trivial = every case; distinct = distinct sequence"
+	r.Rule = "messages fed to the real Monitor.Run (real listener, memory metrics, virtual clock): (a) every single event = message shape (RA: M,O x lifetime {0,30s} x prefixes {none, P1, P1 infinite/zero, P1+P2, P1 with host bits, P1/48, wire-patched length byte 200 followed by P2} x unknown option {no,yes}; RS; NS; NA) x sender {fe80::1%eth0, fe80::1, fe80::2%eth0, 2001:db8::1%eth0, ::%eth0} x gap {0, 1.5s}; (b) all sequences of length<=L over a 18-event sub-alphabet (16 messages + a link flap that makes the monitor re-initialise + the wall clock stepped back by 10 min) chosen so that labels collide (same sender with/without zone, same prefix with other lifetimes/flags, lifetime 0 after non-zero, the same RA again later, RS/NS from an RA's sender); (e) every pair of the sub-alphabet under a clock that advances 400 ms / 1.1 s per reading (all timestamps of one message stem from one of the readings taken while it was handled); (d) 80 and 300 distinct senders on one interface followed by RAs from the last and the first; (c) every pair of the sub-alphabet with one message reaching the socket at the instant of a link flap (counted iff ReadFrom handed it over), and for 6 of them every goroutine schedule with <=2 deviations; oracle: the eight corerad_monitor_* series equal a map-based model after every message, Run never returns; non-trivial = every case; distinct = distinct sequence"
 	if r.Replay != nil {
 		var c c18Case
 		if err := json.Unmarshal(r.Replay, &c); err != nil {
@@ -448,6 +525,18 @@ func TestVerifC18(t *testing.T) {
 		r.Count("transitions", st.Transitions)
 	}
 	r.Count("schedules_explored_for_messages_at_a_link_flap", nsched)
+	// A clock that advances 400 ms / 1.1 s with every reading, over every pair of the
+	// sub-alphabet: the timestamps of one message all stem from one receipt time.
+	for _, step := range []time.Duration{400 * time.Millisecond, 1100 * time.Millisecond} {
+		for _, m1 := range sub {
+			for _, m2 := range sub {
+				if m1.Type == "FLAP" || m1.Type == "CLOCK-BACK" || m2.Type == "FLAP" || m2.Type == "CLOCK-BACK" {
+					continue
+				}
+				one(c18Case{Seq: []c18Msg{m1, m2}, Step: step})
+			}
+		}
+	}
 	// Many distinct senders on one interface (more than any table or label-cardinality
 	// bound would plausibly hold: 80 and 300), each counted under its own address, then an
 	// RA from the last one and from the first one.
